@@ -740,66 +740,15 @@ theorem prod_req (B : Bnds) (ctx : Ctx) (v w : Var) (a f : Asg)
 
 def quadDom (B : Bnds) (q : Quad) (x : Asg) : Prop := ∀ t ∈ q, inDom B x t.2.1 ∧ inDom B x t.2.2
 
-/-- `PropagateResult2QuadTerms` as coded is sound when all coefficients are nonnegative.
-FULL STATEMENT (fails, see `C01_counterexample_quadterms_ctx`): the same without `hc`. -/
-theorem C01_ctx_sound_quadterms_partial (B : Bnds) (ctx : Ctx) (q : Quad) (a f : Asg)
-    (hc : ∀ t ∈ q, 0 ≤ t.1) (da : quadDom B q a) (df : quadDom B q f)
-    (h : ∀ p ∈ propQuad B ctx q, req p.2 (a p.1) (f p.1)) :
-    req ctx (evalQuad a q) (evalQuad f q) := by
-  induction q with
-  | nil => cases ctx <;> simp [req, evalQuad]
-  | cons t tl ih =>
-    obtain ⟨c, v, w⟩ := t
-    have hc0 : 0 ≤ c := hc (c, v, w) (by simp)
-    have iht := ih (fun t ht => hc t (by simp [ht])) (fun t ht => da t (by simp [ht]))
-      (fun t ht => df t (by simp [ht]))
-    by_cases hz : c = 0
-    · subst hz
-      have := iht (by simpa [propQuad] using h)
-      cases ctx <;> simp [req, evalQuad] at this ⊢ <;> grind
-    · have h' : ∀ p ∈ propQuad B ctx tl, req p.2 (a p.1) (f p.1) := by
-        intro p hp; apply h; simp [propQuad, hz, hp]
-      have hv : req (quadTermCtx B ctx v w) (a v) (f v) := by
-        apply h (v, quadTermCtx B ctx v w); simp [propQuad, hz]; split <;> simp
-      have hw : req (quadTermCtx B ctx v w) (a w) (f w) := by
-        by_cases e : v = w
-        · subst e; exact hv
-        · apply h (w, quadTermCtx B ctx v w); simp [propQuad, hz, e]
-      have dav := da (c, v, w) (by simp)
-      have dfv := df (c, v, w) (by simp)
-      have hp := prod_req B ctx v w a f dav.1 dav.2 dfv.1 dfv.2 hv hw
-      have it := iht h'
-      cases ctx <;> simp only [req, evalQuad] at hp it ⊢
-      · have := Rat.mul_le_mul_of_nonneg_left hp hc0; grind
-      · have := Rat.mul_le_mul_of_nonneg_left hp hc0; grind
-      · rw [hp, it]
+/- History (DESIGN A0, fixed in /repo 29be2a5): before the fix the rule ignored the coefficient sign; this file then
+contained `C01_ctx_sound_quadterms_partial` (nonnegative coefficients only) and the proved negation witness
+`C01_counterexample_quadterms_ctx` (B: x∈[0,5], v∈[0,3]; q = [(-1, x, v)]; ctx pos; a = (5,0), f = (5,3):
+all hypotheses hold, `0 ≤ -15` fails).  The check re-found the failing input on the real code on every run. -/
 
-/-- DESIGN A0: the rule as coded ignores the sign of the coefficient.
-`x ∈ [0,5]` (var 0), `v ∈ [0,3]` (var 1), body `-(x·v)` in positive context (constraint `-(x·v) ≥ -4`):
-both factors receive *positive* context, so `v` may be under-estimated (`a v = 0 ≤ f v = 3`), yet the
-body value `0` is not `≤` the true body value `-15`. -/
-theorem C01_counterexample_quadterms_ctx :
-    ∃ (B : Bnds) (q : Quad) (a f : Asg),
-      quadDom B q a ∧ quadDom B q f ∧
-      (∀ p ∈ propQuad B .pos q, req p.2 (a p.1) (f p.1)) ∧
-      ¬ req .pos (evalQuad a q) (evalQuad f q) := by
-  refine ⟨fun v => if v = 0 then { lb := some 0, ub := some 5 } else { lb := some 0, ub := some 3 },
-    [(-1, 0, 1)], fun v => if v = 0 then 5 else 0, fun v => if v = 0 then 5 else 3, ?_, ?_, ?_, ?_⟩
-  · intro t ht; simp at ht; subst ht
-    simp [inDom, VarInfo.admits]; grind
-  · intro t ht; simp at ht; subst ht
-    simp [inDom, VarInfo.admits]; grind
-  · have hne : ¬ ((-1 : Rat) = 0) := by grind
-    have h0 : (0 : Rat) ≤ 0 := by grind
-    intro p hp
-    simp [propQuad, hne, quadTermCtx, lbGE0] at hp
-    rcases hp with hp | hp <;> subst hp <;> simp [req] <;> grind
-  · simp [req, evalQuad]; grind
-
-/-- the proposed repair (coefficient sign first) is sound for all coefficients -/
-theorem C01_ctx_sound_quadterms_fixed (B : Bnds) (ctx : Ctx) (q : Quad) (a f : Asg)
+/-- `PropagateResult2QuadTerms` is sound, for all coefficients (full strength) -/
+theorem C01_ctx_sound_quadterms (B : Bnds) (ctx : Ctx) (q : Quad) (a f : Asg)
     (da : quadDom B q a) (df : quadDom B q f)
-    (h : ∀ p ∈ propQuadFixed B ctx q, req p.2 (a p.1) (f p.1)) :
+    (h : ∀ p ∈ propQuad B ctx q, req p.2 (a p.1) (f p.1)) :
     req ctx (evalQuad a q) (evalQuad f q) := by
   induction q with
   | nil => cases ctx <;> simp [req, evalQuad]
@@ -808,16 +757,16 @@ theorem C01_ctx_sound_quadterms_fixed (B : Bnds) (ctx : Ctx) (q : Quad) (a f : A
     have iht := ih (fun t ht => da t (by simp [ht])) (fun t ht => df t (by simp [ht]))
     by_cases hz : c = 0
     · subst hz
-      have := iht (by simpa [propQuadFixed] using h)
+      have := iht (by simpa [propQuad] using h)
       cases ctx <;> simp [req, evalQuad] at this ⊢ <;> grind
-    · have h' : ∀ p ∈ propQuadFixed B ctx tl, req p.2 (a p.1) (f p.1) := by
-        intro p hp; apply h; simp [propQuadFixed, hz, hp]
+    · have h' : ∀ p ∈ propQuad B ctx tl, req p.2 (a p.1) (f p.1) := by
+        intro p hp; apply h; simp [propQuad, hz, hp]
       have hv : req (quadTermCtx B (if 0 ≤ c then ctx else ctx.flip) v w) (a v) (f v) := by
-        apply h (v, quadTermCtx B (if 0 ≤ c then ctx else ctx.flip) v w); simp [propQuadFixed, hz]; split <;> simp
+        apply h (v, quadTermCtx B (if 0 ≤ c then ctx else ctx.flip) v w); simp [propQuad, hz]; split <;> simp
       have hw : req (quadTermCtx B (if 0 ≤ c then ctx else ctx.flip) v w) (a w) (f w) := by
         by_cases e : v = w
         · subst e; exact hv
-        · apply h (w, quadTermCtx B (if 0 ≤ c then ctx else ctx.flip) v w); simp [propQuadFixed, hz, e]
+        · apply h (w, quadTermCtx B (if 0 ≤ c then ctx else ctx.flip) v w); simp [propQuad, hz, e]
       have dav := da (c, v, w) (by simp)
       have dfv := df (c, v, w) (by simp)
       have hp := prod_req B _ v w a f dav.1 dav.2 dfv.1 dfv.2 hv hw
@@ -1211,7 +1160,7 @@ example : (gIndLE 1 1 [(1, 0), (2, 2)] 3
 `C01_validator_sound : validTrace t = true → ProjEquiv (orig t) (delivered t)` (DESIGN §5 C01).
 What exists: every conversion step listed above is locally exact for the relation its stored context
 asks for (`C01_gadget_*`), and every propagation rule hands its arguments contexts that justify the
-parent's context (`C01_ctx_sound_*`, with the recorded exception `C01_counterexample_quadterms_ctx`).
+parent's context (`C01_ctx_sound_*`).
 What is missing for the whole-model theorem:
 * a `Trace` type + `validTrace` (each step is an instance of its gadget with the logged context and
   bounds; every bridged functional constraint was converted in every direction of its *final* context —
